@@ -511,6 +511,81 @@ def translate(repo):
     return code, meta
 
 
+# --------------------------------------------------------------------------------------------------------------
+# the three defect sites of linear_operator/operators/_linear_operator.py the model depends on (gen/SourceFlags.v)
+
+def _method(tree, cls, name):
+    for node in tree.body:
+        if isinstance(node, ast.ClassDef) and node.name == cls:
+            for st in node.body:
+                if isinstance(st, ast.FunctionDef) and st.name == name:
+                    return st
+    raise Untranslatable("%s.%s not found" % (cls, name))
+
+
+def _pop_branch_return(fn):
+    """the `return` of   try: evals, evecs = pop_from_cache(self, "symeig", eigenvectors=True); return <X>"""
+    tries = [s for s in fn.body if isinstance(s, ast.Try)]
+    if len(tries) != 1:
+        raise Untranslatable("%s: expected exactly one try statement" % fn.name)
+    t = tries[0]
+    ok = (len(t.body) == 2 and isinstance(t.body[0], ast.Assign) and isinstance(t.body[0].value, ast.Call)
+          and isinstance(t.body[0].value.func, ast.Name) and t.body[0].value.func.id == "pop_from_cache"
+          and len(t.body[0].value.args) == 2 and isinstance(t.body[0].value.args[1], ast.Constant)
+          and t.body[0].value.args[1].value == "symeig"
+          and [k.arg for k in t.body[0].value.keywords] == ["eigenvectors"]
+          and isinstance(t.body[1], ast.Return)
+          and len(t.handlers) == 1 and isinstance(t.handlers[0].type, ast.Name) and t.handlers[0].type.id == "CachingError")
+    if not ok:
+        raise Untranslatable("%s: the pop_from_cache(self, \"symeig\", eigenvectors=True) branch changed shape" % fn.name)
+    tg = t.body[0].targets[0]
+    if not (isinstance(tg, ast.Tuple) and [getattr(x, "id", None) for x in tg.elts] == ["evals", "evecs"]):
+        raise Untranslatable("%s: pop target" % fn.name)
+    return t.body[1].value
+
+
+def source_flags(repo):
+    p = os.path.join(repo, "linear_operator", "operators", "_linear_operator.py")
+    try:
+        tree = ast.parse(open(p).read())
+    except SyntaxError as ex:
+        raise Untranslatable("syntax error in _linear_operator.py: %s" % ex)
+    # add_low_rank:  if return_triangular: updated_root = TriangularLinearOperator(updated_root)
+    alr = _method(tree, "LinearOperator", "add_low_rank")
+    wraps = False
+    for node in ast.walk(alr):
+        if isinstance(node, ast.If) and isinstance(node.test, ast.Name) and node.test.id == "return_triangular":
+            for st in node.body:
+                if (isinstance(st, ast.Assign) and isinstance(st.targets[0], ast.Name) and st.targets[0].id == "updated_root"
+                        and isinstance(st.value, ast.Call) and isinstance(st.value.func, ast.Name)
+                        and st.value.func.id == "TriangularLinearOperator"):
+                    wraps = True
+    names = {n.id for n in ast.walk(alr) if isinstance(n, ast.Name)}
+    if not {"updated_root", "updated_inv_root", "current_root", "current_inv_root"} <= names:
+        raise Untranslatable("add_low_rank no longer has the update structure the model transcribes")
+    r1 = _pop_branch_return(_method(tree, "LinearOperator", "eigh"))
+    r2 = _pop_branch_return(_method(tree, "LinearOperator", "eigvalsh"))
+
+    def shape(r):
+        if isinstance(r, ast.Name):
+            return r.id
+        if isinstance(r, ast.Tuple) and len(r.elts) == 2:
+            return tuple(x.id if isinstance(x, ast.Name) else (None if isinstance(x, ast.Constant) and x.value is None else "?")
+                         for x in r.elts)
+        return "?"
+    s1, s2 = shape(r1), shape(r2)
+    if s1 not in (("evals", None), ("evals", "evecs")):
+        raise Untranslatable("eigh: unexpected return %r in the pop branch" % (s1,))
+    if s2 not in (("evals", None), "evals"):
+        raise Untranslatable("eigvalsh: unexpected return %r in the pop branch" % (s2,))
+    fl = {"lr_wraps": wraps, "eigh_none": s1 == ("evals", None), "eigvalsh_tuple": s2 != "evals"}
+    code = ("(* GENERATED by harness/c12_memo_tr.py from linear_operator/operators/_linear_operator.py - do not edit *)\n"
+            "Require Import C12.Model.\n"
+            "Definition flags : srcflags := {| fl_lr_wraps := %s; fl_eigh_none := %s; fl_eigvalsh_tuple := %s |}.\n"
+            % tuple("true" if fl[k] else "false" for k in ("lr_wraps", "eigh_none", "eigvalsh_tuple")))
+    return code, fl
+
+
 if __name__ == "__main__":
     import sys
     print(translate(sys.argv[1] if len(sys.argv) > 1 else "/repo")[0])
